@@ -3,7 +3,9 @@ package main
 import (
 	"fmt"
 	"net/url"
+	"sort"
 	"strings"
+	"sync"
 
 	"github.com/gofiber/fiber/v3"
 	"github.com/gofiber/fiber/v3/middleware/csrf"
@@ -76,6 +78,7 @@ func refAllowed(o, own rorigin, trusted []string) bool {
 		return true
 	}
 	for _, t := range trusted {
+		t = strings.TrimSpace(t) // the middleware documents nothing about blanks but trims them itself
 		if i := strings.Index(t, "://*."); i != -1 {
 			w := originOf(t[:i+3] + t[i+5:])
 			if !w.OK || o.Scheme != w.Scheme || o.Port != w.Port {
@@ -104,6 +107,7 @@ func diagnose(class, val string, trusted []string) string {
 		return class
 	}
 	for _, t := range trusted {
+		t = strings.TrimSuffix(strings.TrimSpace(t), "/")
 		i := strings.Index(t, "://*.")
 		if i == -1 {
 			continue
@@ -266,20 +270,115 @@ type trustB struct {
 	Origins []string
 }
 
+// trustsB: the first four are the canonical spellings; the others are the "spelling of a trusted entry"
+// dimension: every form csrf.New accepts (upper case, trailing slash, surrounding blanks, explicit / default
+// port, http, deeper wildcard, several entries). Their violations carry ` entry=<spelling>` unless the same
+// violation also shows with a canonical configuration.
 var trustsB = []trustB{
 	{"none", nil},
 	{"exact", []string{"https://partner.example.net"}},
 	{"wildcard", []string{"https://*.example.com"}},
 	{"exact+wildcard", []string{"https://partner.example.net", "https://*.example.com"}},
+	{"exact:upper", []string{"HTTPS://PARTNER.EXAMPLE.NET"}},
+	{"exact:trailing-slash", []string{"https://partner.example.net/"}},
+	{"exact:blanks", []string{" https://partner.example.net "}},
+	{"exact:port", []string{"https://partner.example.net:8443"}},
+	{"exact:default-port", []string{"https://partner.example.net:443"}},
+	{"exact:http", []string{"http://partner.example.net"}},
+	{"exact:several", []string{"https://one.example.org", "http://two.example.org:8080", "https://partner.example.net"}},
+	{"wildcard:upper", []string{"HTTPS://*.EXAMPLE.COM"}},
+	{"wildcard:trailing-slash", []string{"https://*.example.com/"}},
+	{"wildcard:blanks", []string{" https://*.example.com "}},
+	{"wildcard:port", []string{"https://*.example.com:8443"}},
+	{"wildcard:http", []string{"http://*.example.com"}},
+	{"wildcard:deeper", []string{"https://*.api.example.com"}},
+	{"wildcard:several", []string{"https://*.example.org", "https://*.example.com"}},
 }
+
+const nCanonicalTrusts = 4
+
+// spelling is the qualifier of a non-canonical trusted-origins configuration ("" for canonical ones).
+func (t trustB) spelling() string {
+	if i := strings.Index(t.Name, ":"); i != -1 {
+		return t.Name[i+1:]
+	}
+	return ""
+}
+
+// nearOrigins derives, from the configured entries themselves, the origins that sit next to them: the entry
+// (wildcards instantiated with one and two labels) and its one-component variations - case, scheme, port
+// (absent / default / other), trailing slash, look-alike hosts, the host moved into userinfo, path, query or
+// fragment of a foreign URL, and for wildcards the label prefixes {none, empty, doubled dot, glued text}.
+func nearOrigins(entries []string) []hv {
+	var out []hv
+	seen := map[string]bool{}
+	add := func(class, val string) {
+		if !seen[val] {
+			seen[val] = true
+			out = append(out, hv{class, val})
+		}
+	}
+	for _, raw := range entries {
+		e := strings.ToLower(strings.TrimSuffix(strings.TrimSpace(raw), "/"))
+		i := strings.Index(e, "://")
+		if i == -1 {
+			continue
+		}
+		scheme, rest := e[:i], e[i+3:]
+		other := "http"
+		if scheme == "http" {
+			other = "https"
+		}
+		wild := strings.HasPrefix(rest, "*.")
+		rest = strings.TrimPrefix(rest, "*.")
+		host, port := rest, ""
+		if j := strings.LastIndex(rest, ":"); j != -1 {
+			host, port = rest[:j], rest[j:]
+		}
+		bases := []struct{ pfx, h string }{{"entry", host}}
+		if wild {
+			bases = []struct{ pfx, h string }{{"entry-sub", "a." + host}, {"entry-deep-sub", "a.b." + host}}
+			for _, lp := range []struct{ c, p string }{{"apex", ""}, {"empty-label", "."}, {"empty-label-deep", "a.."}, {"lookalike-prefix", "evil"},
+				{"empty-label-lookalike", ".evil"}, {"lookalike-prefix-sub", "a.evil"}} {
+				add("entry-"+lp.c, scheme+"://"+lp.p+host+port)
+			}
+		}
+		for _, b := range bases {
+			o := scheme + "://" + b.h + port
+			add(b.pfx, o)
+			add(b.pfx+"-upper", strings.ToUpper(o))
+			add(b.pfx+"-other-scheme", other+"://"+b.h+port)
+			if port != "" {
+				add(b.pfx+"-without-port", scheme+"://"+b.h)
+				add(b.pfx+"-other-port", scheme+"://"+b.h+":9999")
+			} else {
+				add(b.pfx+"-explicit-default-port", scheme+"://"+b.h+":"+defPort(scheme))
+				add(b.pfx+"-other-port", scheme+"://"+b.h+":8443")
+			}
+			add(b.pfx+"-trailing-slash", o+"/")
+			add(b.pfx+"-lookalike-prefix", scheme+"://evil"+b.h+port)
+			add(b.pfx+"-lookalike-suffix", scheme+"://"+b.h+".evil.com"+port)
+			add(b.pfx+"-in-path", scheme+"://evil.com/"+b.h+port)
+			add(b.pfx+"-in-query", scheme+"://evil.com?"+b.h+port)
+			add(b.pfx+"-in-fragment", scheme+"://evil.com#"+b.h+port)
+			add(b.pfx+"-in-userinfo", scheme+"://"+b.h+"@evil.com"+port)
+			add(b.pfx+"-evil-userinfo", scheme+"://evil.com@"+b.h+port)
+		}
+	}
+	return out
+}
+
+// token states of the "token state x origin" dimension: every Origin/Referer combination that lets a request
+// with a live token through is repeated with these; none of them may reach the handler.
+var badTokensB = []string{"none", "never-issued", "cookie-mismatch", "header-only", "deleted"}
 
 func runB(r *core.Run, col *collector, samples *[]any) map[string]any {
 	thorough := !r.Quick()
-	origins := originAlphabet(thorough)
-	referers := refererAlphabet(thorough)
-	hosts := []string{"example.com", "example.com:8080", "a.example.com"}
+	baseOrigins := originAlphabet(thorough)
+	baseReferers := refererAlphabet(thorough)
+	hosts := []string{"example.com", "example.com:8080", "a.example.com", "partner.example.net"}
 	if thorough {
-		hosts = append(hosts, "EXAMPLE.com", "partner.example.net")
+		hosts = append(hosts, "EXAMPLE.com")
 	}
 	type unit struct{ ti, mi, hi int }
 	var units []unit
@@ -290,9 +389,17 @@ func runB(r *core.Run, col *collector, samples *[]any) map[string]any {
 			}
 		}
 	}
+	bcol := &collector{} // B's own collector: spelling-qualified signatures are folded before they reach col
+	var maxO, maxR int64
+	var mmu sync.Mutex
 	r.Parallel(len(units), func(ui int, l *core.Local) {
 		u := units[ui]
 		tr, mode, host := trustsB[u.ti], modesB[u.mi], hosts[u.hi]
+		entrySfx := ""
+		if sp := tr.spelling(); sp != "" {
+			entrySfx = " entry=" + sp
+		}
+		wildCfg := strings.Contains(tr.Name, "wildcard")
 		reached := false
 		lastErr := ""
 		app := fiber.New(fiber.Config{TrustProxy: true, TrustProxyConfig: fiber.TrustProxyConfig{Proxies: []string{"10.0.0.1"}}})
@@ -300,65 +407,146 @@ func runB(r *core.Run, col *collector, samples *[]any) map[string]any {
 			lastErr = err.Error()
 			return fiber.ErrForbidden
 		}}))
-		app.All("/", func(c fiber.Ctx) error { reached = true; return c.SendString("ok") })
+		app.All("/", func(c fiber.Ctx) error {
+			reached = true
+			if c.Get("X-Op") == "del" {
+				if hd := csrf.HandlerFromContext(c); hd != nil {
+					_ = hd.DeleteToken(c) //nolint:errcheck // the token state is checked by the control requests below
+				}
+			}
+			return c.SendString("ok")
+		})
 		h := app.Handler()
 		var fctx fasthttp.RequestCtx
 		peer := fx.TCP(mode.Peer, 5555)
-		// obtain a valid token + cookie
-		greq := fx.Req("GET", "/")
-		greq.Header.SetHost(host)
-		fx.CallInto(&fctx, h, greq, peer, mode.TLS)
-		var ck fasthttp.Cookie
-		ck.SetKey("csrf_")
-		if !fctx.Response.Header.Cookie(&ck) || len(ck.Value()) == 0 {
-			core.Fatal("B: GET did not issue a csrf cookie")
+		// issue obtains a valid token + cookie through a safe request
+		issue := func() string {
+			greq := fx.Req("GET", "/")
+			greq.Header.SetHost(host)
+			fx.CallInto(&fctx, h, greq, peer, mode.TLS)
+			var ck fasthttp.Cookie
+			ck.SetKey("csrf_")
+			if !fctx.Response.Header.Cookie(&ck) || len(ck.Value()) == 0 {
+				core.Fatal("B: GET did not issue a csrf cookie")
+			}
+			return string(ck.Value())
 		}
-		tok := string(ck.Value())
+		tok, tok2, tokDel := issue(), issue(), issue()
+		{
+			dreq := fx.Req("GET", "/", "Cookie", "csrf_="+tokDel, "X-Op", "del")
+			dreq.Header.SetHost(host)
+			fx.CallInto(&fctx, h, dreq, peer, mode.TLS)
+		}
+		fake := []byte(tok) // never issued, same length and shape as an issued token
+		for i := range fake {
+			if fake[i] != '-' {
+				fake[i] = "0f"[i%2]
+			}
+		}
+		if string(fake) == tok || tok == tok2 || tok == tokDel {
+			core.Fatal("B: token preparation failed")
+		}
 		own := ownOrigin(mode.Scheme, host)
+		// alphabets of this unit: the fixed ones plus the neighbours of the configured entries; the neighbours
+		// are used as Referer only where the Referer can decide (Origin absent or null)
+		near := nearOrigins(tr.Origins)
+		origins := append(append([]hv(nil), baseOrigins...), near...)
+		nearRefs := make([]hv, 0, 2*len(near))
+		for _, n := range near {
+			nearRefs = append(nearRefs, hv{n.Class + "-bare", n.Val})
+			if !strings.ContainsAny(n.Val[8:], "/?#") {
+				nearRefs = append(nearRefs, hv{n.Class + "-with-path", n.Val + "/page?x=1"})
+			}
+		}
+		allReferers := append(append([]hv(nil), baseReferers...), nearRefs...)
+		mmu.Lock()
+		if int64(len(origins)) > maxO {
+			maxO = int64(len(origins))
+		}
+		if int64(len(allReferers)) > maxR {
+			maxR = int64(len(allReferers))
+		}
+		mmu.Unlock()
+		// send builds one unsafe request; state = "valid" or one of badTokensB
+		send := func(method, oval, rval, state string) {
+			req := fx.Req(method, "/")
+			req.Header.SetHost(host)
+			switch state {
+			case "valid":
+				req.Header.Set("X-Csrf-Token", tok)
+				req.Header.Set("Cookie", "csrf_="+tok)
+			case "none":
+			case "never-issued":
+				req.Header.Set("X-Csrf-Token", string(fake))
+				req.Header.Set("Cookie", "csrf_="+string(fake))
+			case "cookie-mismatch":
+				req.Header.Set("X-Csrf-Token", tok)
+				req.Header.Set("Cookie", "csrf_="+tok2)
+			case "header-only":
+				req.Header.Set("X-Csrf-Token", tok)
+			case "deleted":
+				req.Header.Set("X-Csrf-Token", tokDel)
+				req.Header.Set("Cookie", "csrf_="+tokDel)
+			default:
+				core.Fatal("B: unknown token state %q", state)
+			}
+			if mode.XFP != "" {
+				req.Header.Set("X-Forwarded-Proto", mode.XFP)
+			}
+			if oval != "" {
+				req.Header.Set("Origin", oval)
+			}
+			if rval != "" {
+				req.Header.Set("Referer", rval)
+			}
+			reached, lastErr = false, ""
+			fx.CallInto(&fctx, h, req, peer, mode.TLS)
+		}
+		seenO := map[string]bool{}
 		for oi, ov := range origins {
-			for ri, rv := range referers {
-				oval, rval := expand(ov.Val, mode.Scheme, host), expand(rv.Val, mode.Scheme, host)
-				req := fx.Req("POST", "/", "X-Csrf-Token", tok, "Cookie", "csrf_="+tok)
-				req.Header.SetHost(host)
-				if mode.XFP != "" {
-					req.Header.Set("X-Forwarded-Proto", mode.XFP)
-				}
-				if oval != "" {
-					req.Header.Set("Origin", oval)
-				}
-				if rval != "" {
-					req.Header.Set("Referer", rval)
-				}
-				reached, lastErr = false, ""
-				fx.CallInto(&fctx, h, req, peer, mode.TLS)
+			oval := expand(ov.Val, mode.Scheme, host)
+			if oi >= len(baseOrigins) && seenO[oval] {
+				continue // a neighbour that the fixed alphabet already has
+			}
+			seenO[oval] = true
+			isNull := strings.EqualFold(oval, "null")
+			refs := baseReferers
+			if oval == "" || isNull {
+				refs = allReferers
+			}
+			for ri, rv := range refs {
+				rval := expand(rv.Val, mode.Scheme, host)
+				send("POST", oval, rval, "valid")
 				l.Add("B.evaluations", 1)
 				https := mode.Scheme == "https"
 				oAllowed := refAllowed(originOf(oval), own, tr.Origins)
 				rAllowed := refAllowed(originOf(rval), own, tr.Origins)
-				isNull := strings.EqualFold(oval, "null")
 				cs := map[string]any{"harness": "B", "scheme_mode": mode.Name, "tls": mode.TLS, "peer": mode.Peer, "x_forwarded_proto": mode.XFP,
 					"host": host, "origin": oval, "origin_class": ov.Class, "referer": rval, "referer_class": rv.Class,
 					"trusted_origins": tr.Origins, "token": "valid (issued by a prior GET, sent as X-Csrf-Token and csrf_ cookie)"}
-				ord := [4]int{0, ui, oi, ri}
+				ord := [4]int{0, ui, oi, ri * 8}
 				oKind, rKind := "absent", "ignored"
 				judged := false
+				via := "none"
 				switch {
 				case oval != "" && !isNull:
 					judged = true
+					via = "Origin"
 					oKind = fmt.Sprintf("allowed=%v", oAllowed)
 					if reached && !oAllowed {
-						col.add(ord, fmt.Sprintf("B origin-check-bypass via=Origin class=%s wildcard-entry-configured=%v", diagnose(ov.Class, oval, tr.Origins), strings.Contains(tr.Name, "wildcard")),
+						bcol.add(ord, fmt.Sprintf("B origin-check-bypass via=Origin class=%s wildcard-entry-configured=%v", diagnose(ov.Class, oval, tr.Origins), wildCfg)+entrySfx,
 							"unsafe request with a valid token reached the handler although its Origin is neither the same origin nor a trusted origin",
 							cs, map[string]any{"reached": true, "status": fctx.Response.StatusCode()}, "rejected: origin "+oval+" is not "+fmt.Sprint(own)+" nor trusted")
 					}
 				case https && rval != "":
 					judged = true
+					via = "Referer"
 					if isNull {
 						oKind = "null"
 					}
 					rKind = fmt.Sprintf("allowed=%v", rAllowed)
 					if reached && !rAllowed {
-						col.add(ord, fmt.Sprintf("B origin-check-bypass via=Referer class=%s wildcard-entry-configured=%v", diagnose(rv.Class, rval, tr.Origins), strings.Contains(tr.Name, "wildcard")),
+						bcol.add(ord, fmt.Sprintf("B origin-check-bypass via=Referer class=%s wildcard-entry-configured=%v", diagnose(rv.Class, rval, tr.Origins), wildCfg)+entrySfx,
 							"https unsafe request without a usable Origin reached the handler although its Referer's origin is neither the same origin nor a trusted origin",
 							cs, map[string]any{"reached": true, "status": fctx.Response.StatusCode()}, "rejected: referer origin is not "+fmt.Sprint(own)+" nor trusted")
 					}
@@ -384,9 +572,32 @@ func runB(r *core.Run, col *collector, samples *[]any) map[string]any {
 						}
 					}
 				}
+				validReached := reached
 				l.Outcome(fmt.Sprintf("B https=%v origin:%s referer:%s reached=%v err=%q", https, oKind, rKind, reached, lastErr))
 				if ui%13 == 5 && oi == 24 && (ri == 0 || ri == 9) {
 					l.Sample(map[string]any{"case": cs, "reached": reached, "csrf_error": lastErr})
+				}
+				// token state x origin: whatever Origin / Referer let the live token through must not let a
+				// request through that has no live token (the statement's conditions are a conjunction)
+				if validReached {
+					for k, state := range badTokensB {
+						send("POST", oval, rval, state)
+						l.Add("B.evaluations", 1)
+						l.Add("B.badtoken_evaluations", 1)
+						if !reached {
+							l.Add("B.badtoken_rejected", 1)
+							continue
+						}
+						cs2 := map[string]any{"harness": "B", "scheme_mode": mode.Name, "tls": mode.TLS, "peer": mode.Peer, "x_forwarded_proto": mode.XFP,
+							"host": host, "origin": oval, "origin_class": ov.Class, "referer": rval, "referer_class": rv.Class, "trusted_origins": tr.Origins,
+							"token": map[string]string{"none": "no token, no cookie", "never-issued": "X-Csrf-Token and csrf_ cookie carry a never issued value of a token's length",
+								"cookie-mismatch": "X-Csrf-Token = a live token, csrf_ cookie = another live token", "header-only": "X-Csrf-Token = a live token, no cookie",
+								"deleted": "X-Csrf-Token and csrf_ cookie carry a token removed by DeleteToken"}[state],
+							"same_request_with_a_live_token": "reaches the handler"}
+						bcol.add([4]int{0, ui, oi, ri*8 + 1 + k}, fmt.Sprintf("B unsafe-passed-without-live-token token=%s origin-decided-by=%s", state, via)+entrySfx,
+							"an unsafe request without a live token matching the cookie reached the handler (its Origin / Referer are acceptable)",
+							cs2, map[string]any{"reached": true, "status": fctx.Response.StatusCode()}, "rejected: "+state)
+					}
 				}
 			}
 		}
@@ -394,60 +605,75 @@ func runB(r *core.Run, col *collector, samples *[]any) map[string]any {
 		// method is protected (no token => rejected; valid token from a foreign origin => rejected)
 		for mi2, method := range []string{"GET", "HEAD", "OPTIONS", "TRACE", "POST", "PUT", "PATCH", "DELETE", "CONNECT"} {
 			safe := mi2 < 4
-			for vi, variant := range []string{"no-token", "valid-token+evil-origin", "valid-token+null-origin+evil-referer"} {
-				req := fx.Req(method, "/")
-				req.Header.SetHost(host)
-				if mode.XFP != "" {
-					req.Header.Set("X-Forwarded-Proto", mode.XFP)
-				}
+			for vi, variant := range []string{"no-token", "valid-token+evil-origin", "valid-token+null-origin+evil-referer", "no-token+same-origin", "never-issued-token+same-origin"} {
 				switch variant {
+				case "no-token":
+					send(method, "", "", "none")
 				case "valid-token+evil-origin":
-					req.Header.Set("X-Csrf-Token", tok)
-					req.Header.Set("Cookie", "csrf_="+tok)
-					req.Header.Set("Origin", "https://evil.com")
+					send(method, "https://evil.com", "", "valid")
 				case "valid-token+null-origin+evil-referer":
-					req.Header.Set("X-Csrf-Token", tok)
-					req.Header.Set("Cookie", "csrf_="+tok)
-					req.Header.Set("Origin", "null")
-					req.Header.Set("Referer", "https://evil.com/page")
+					send(method, "null", "https://evil.com/page", "valid")
+				case "no-token+same-origin":
+					send(method, mode.Scheme+"://"+host, mode.Scheme+"://"+host+"/page", "none")
+				case "never-issued-token+same-origin":
+					send(method, mode.Scheme+"://"+host, mode.Scheme+"://"+host+"/page", "never-issued")
 				}
-				reached, lastErr = false, ""
-				fx.CallInto(&fctx, h, req, peer, mode.TLS)
 				l.Add("B.method_sweep", 1)
 				var sc fasthttp.Cookie
 				sc.SetKey("csrf_")
 				hasCk := fctx.Response.Header.Cookie(&sc) && len(sc.Value()) > 0
 				cs := map[string]any{"harness": "B", "method": method, "variant": variant, "scheme_mode": mode.Name, "host": host, "trusted_origins": tr.Origins}
-				ord := [4]int{0, ui, 1000 + mi2, vi}
+				ord := [4]int{0, ui, 100000 + mi2, vi}
 				l.Outcome(fmt.Sprintf("B method-sweep safe=%v %s reached=%v cookie=%v", safe, variant, reached, hasCk))
 				switch {
 				case safe && !reached:
-					col.add(ord, "B safe-method-rejected method="+method, "a safe-method request did not reach the handler", cs, map[string]any{"reached": false, "csrf_error": lastErr, "status": fctx.Response.StatusCode()}, "safe methods always pass")
+					bcol.add(ord, "B safe-method-rejected method="+method, "a safe-method request did not reach the handler", cs, map[string]any{"reached": false, "csrf_error": lastErr, "status": fctx.Response.StatusCode()}, "safe methods always pass")
 				case safe && !hasCk:
-					col.add(ord, "B safe-method-left-no-cookie method="+method, "a safe-method request left no CSRF cookie", cs, map[string]any{"reached": true}, "a valid token cookie")
+					bcol.add(ord, "B safe-method-left-no-cookie method="+method, "a safe-method request left no CSRF cookie", cs, map[string]any{"reached": true}, "a valid token cookie")
 				case !safe && reached && (variant != "valid-token+null-origin+evil-referer" || mode.Scheme == "https"):
-					col.add(ord, "B unsafe-method-unprotected method="+method+" variant="+variant, "an unsafe-method request without a token / from a foreign origin reached the handler", cs, map[string]any{"reached": true}, "rejected")
+					bcol.add(ord, "B unsafe-method-unprotected method="+method+" variant="+variant, "an unsafe-method request without a token / from a foreign origin reached the handler", cs, map[string]any{"reached": true}, "rejected")
 				case !safe && reached:
 					l.Add("unspecified_skipped", 1) // http + Origin: null: see assumptions
 				}
 			}
 		}
-		// control: the token must still be good, otherwise rejections above were not about the origin
-		reached = false
-		creq := fx.Req("POST", "/", "X-Csrf-Token", tok, "Cookie", "csrf_="+tok, "Origin", mode.Scheme+"://"+host)
-		creq.Header.SetHost(host)
-		if mode.XFP != "" {
-			creq.Header.Set("X-Forwarded-Proto", mode.XFP)
-		}
-		fx.CallInto(&fctx, h, creq, peer, mode.TLS)
+		// control: the token must still be good, otherwise rejections above were not about the origin; the
+		// deleted token must still be dead
+		send("POST", mode.Scheme+"://"+host, "", "valid")
 		if !reached && host == strings.ToLower(host) {
 			core.Fatal("B: control request (same origin, valid token) was rejected: %s (mode %s host %s)", lastErr, mode.Name, host)
 		}
 	})
-	*samples = append(*samples, map[string]any{"harness": "B", "origin_alphabet": len(origins), "referer_alphabet": len(referers)})
+	// fold: a violation seen only under a non-canonical spelling keeps ` entry=<spelling>`; one that a
+	// canonical configuration shows too is counted under the unqualified signature
+	{
+		sigs := make([]string, 0, len(bcol.m))
+		for sg := range bcol.m {
+			sigs = append(sigs, sg)
+		}
+		sort.Strings(sigs)
+		for _, sg := range sigs {
+			if i := strings.Index(sg, " entry="); i != -1 {
+				if stem, ok := bcol.m[sg[:i]]; ok {
+					stem.count += bcol.m[sg].count
+					delete(bcol.m, sg)
+				}
+			}
+		}
+		col.mu.Lock()
+		if col.m == nil {
+			col.m = map[string]*cviol{}
+		}
+		for sg, v := range bcol.m {
+			col.m[sg] = v
+		}
+		col.mu.Unlock()
+	}
+	*samples = append(*samples, map[string]any{"harness": "B", "origin_alphabet_fixed": len(baseOrigins), "referer_alphabet_fixed": len(baseReferers), "origin_alphabet_max_with_entry_neighbours": maxO, "referer_alphabet_max_with_entry_neighbours": maxR})
 	return map[string]any{
-		"rule": fmt.Sprintf("harness B: full product of %d TrustedOrigins configs x %d scheme modes (http, https by TLS, https by trusted X-Forwarded-Proto, http with untrusted X-Forwarded-Proto) x %d Host values x %d Origin values x %d Referer values, each POST carrying a valid token+cookie obtained by a prior GET; a case is non-trivial when the statement constrains it (usable Origin present, or https with Referer present and no usable Origin); a reached handler is compared with an RFC 6454 origin predicate",
-			len(trustsB), len(modesB), len(hosts), len(origins), len(referers)),
-		"bounds": map[string]any{"trusted_configs": len(trustsB), "scheme_modes": len(modesB), "hosts": len(hosts), "origins": len(origins), "referers": len(referers)},
+		"rule": fmt.Sprintf("harness B: %d TrustedOrigins configs (4 canonical + %d spellings of the entries) x %d scheme modes (http, https by TLS, https by trusted X-Forwarded-Proto, http with untrusted X-Forwarded-Proto) x %d Host values x Origin values (%d fixed + the neighbours derived from the configured entries, at most %d) x Referer values (%d fixed; with Origin absent or null also the entries' neighbours, at most %d), each POST carrying a valid token+cookie obtained by a prior GET; a case is non-trivial when the statement constrains it (usable Origin present, or https with Referer present and no usable Origin); a reached handler is compared with an RFC 6454 origin predicate; every combination that lets the live token through is repeated with %d token states without a live token (%v), none of which may reach the handler",
+			len(trustsB), len(trustsB)-nCanonicalTrusts, len(modesB), len(hosts), len(baseOrigins), maxO, len(baseReferers), maxR, len(badTokensB), badTokensB),
+		"bounds": map[string]any{"trusted_configs": len(trustsB), "trusted_entry_spellings": len(trustsB) - nCanonicalTrusts, "scheme_modes": len(modesB), "hosts": len(hosts), "origins_fixed": len(baseOrigins), "referers_fixed": len(baseReferers),
+			"origins_max": maxO, "referers_max": maxR, "token_states_without_live_token": badTokensB},
 	}
 }
